@@ -30,6 +30,9 @@ def run(ctx):
             S.append(dict(sc, bulk=0, api="py.multiwalk" if n > 1 or rnd.random() < 0.5 else "py.walk", proto="v2c"))
         if rnd.random() < (0.03 if q else 0.12):
             S.append(dict(sc, bulk=0, api="multiwalk", proto=rnd.choice(W.PROTO_SAMPLE)))
+        if rnd.random() < 0.3:
+            # bulk walks are walks too (their equality with the GETNEXT walk is C02's subject)
+            S.append(dict(sc, bulk=rnd.choice([1, 2, 3, 5]), api="bulkwalk", cut=rnd.choice(list(drv_walk.CUTS)), proto="v2c"))
     for sc in W.random_big(rnd, 150 if q else 1500, [0]):
         S.append(dict(sc, api="multiwalk" if len(sc["roots"]) > 1 else rnd.choice(["walk", "multiwalk"]), proto=rnd.choice(["v2c", "v2c"] + W.PROTO_SAMPLE)))
     ctx.rule = ("scenarios = TLC-enumerated initial states of Walk.tla (every database over the %d-instance universe x every list of 1..3 "
